@@ -202,8 +202,8 @@ static int pick_next(int self, int self_may_continue)
         if (self >= 0 && self_may_continue) for (i = 0; i < nen; i++) if (en[i] == self) cur_enabled = 1;
         if (cur_enabled && T[self].pend_kind == OP_YIELD && nen > 1) {
             /* sched_yield: another thread is the default choice, switching is free */
+            /* fair scheduling: a thread that yields says it cannot make progress; it runs again only after another thread took a step */
             for (i = 0; i < nen; i++) if (en[i] != self) { order[n] = en[i]; cost[n] = COST_FREE; n++; }
-            order[n] = self; cost[n] = COST_FREE; n++;
         } else {
             if (cur_enabled) { order[n] = self; cost[n] = COST_FREE; n++; }
             for (i = 0; i < nen; i++) if (!(cur_enabled && en[i] == self)) { order[n] = en[i]; cost[n] = cur_enabled ? COST_PREEMPT : COST_FREE; n++; }
